@@ -54,6 +54,13 @@ Fixpoint nl_read_digits (base : Z) (acc : Z) (ds : list Z) : Z :=
   match ds with [] => acc | d :: r => nl_read_digits base (bn_wrap (bn_wrap (acc * base) + d)) r end.
 Definition nl_read_int (base : Z) (ds : list Z) : Z := nl_read_digits base 0 ds.
 
+(* bn.from, decimal branch (after 96cb9da): when the parsed big number does not print back as the digits that
+   were read (bn.todecint(n) ~= digits, i.e. the value did not fit), the literal is read by tonumber as a
+   float instead.  None = "read as a float" (correctly rounded by the host strtod: assumed, oracle-checked) *)
+Definition nl_read_dec (ds : list Z) : option Z :=
+  let n := nl_read_int 10 ds in
+  if n =? digits_value 10 0 ds then Some n else None.
+
 (* ================================================================================================
    literal typing (analyzer.lua visitors.Number, integer spellings)
    ================================================================================================ *)
@@ -84,11 +91,12 @@ Definition nl_literal_type (value base : Z) (suffix desired : option itype) : li
    "U" if ct_u; "" / "L" / "LL" for ct_l = 0 / 1 / 2 *)
 Record ctext := mk_ctext { ct_paren : bool; ct_neg : bool; ct_hex : bool; ct_mag : Z; ct_u : bool; ct_l : Z }.
 
-(* types.lua IntegralType:wrap_value, as the code is *)
+(* types.lua IntegralType:wrap_value (after 59c538f): the low bits read as unsigned, then as two's complement *)
 Definition nl_wrap_value (T : itype) (v : Z) : Z :=
   if it_inrange T v then v
-  else if it_signed T && (it_max T <? v) then bn_wrap (- bwrap (bn_wrap (- v)) (it_bits T))
-  else bwrap v (it_bits T).
+  else
+    let w := bwrap v (it_bits T) in
+    if it_signed T && (it_max T <? w) then bn_wrap (w - 2 ^ it_bits T) else w.
 
 (* the value is first forced into the type:  if unsigned and negative, or out of range: wrap_value *)
 Definition nl_prewrap (T : itype) (v : Z) : Z :=
